@@ -26,7 +26,13 @@ RULE = ('sent: Rmcp._send_ipmi_msg through a fake socket for every payload lengt
         '(80h, 20h, A0h) x entities {81h, 01h, 80h, 00h} x OEM numbers {4542/0, other/any}, every tag, random '
         'combinations (thorough: all 65 536 entity x interaction pairs); each must be accepted and the AsfPong '
         'object must hold exactly the fields Spec.Lan.parsePong reads; truncations / extensions / byte alterations, '
-        'a ping in place of the pong, foreign enterprise numbers.  MD5: the Lean RFC 1321 '
+        'a ping in place of the pong, foreign enterprise numbers.  The pong the library BUILDS: AsfPong().pack() of a '
+        'fresh object, with each of tag / OEM number / OEM-defined / entities / interactions at its boundary values, all '
+        'of them set, and of an AsfPong that unpacked a figure-built pong first - behind the RMCP header 06 00 FF 06 it '
+        'must be parsed by Spec.Lan.parsePong as the presence pong with exactly those fields, be accepted by the '
+        'library\'s own AsfPong().unpack with those fields, and a second pack() must repeat it; the answer of '
+        'pyipmi.emulation.handle_rmcp_asf_msg to figure-built pings with tags 00h..FEh must be a well-formed pong '
+        'carrying the ping\'s tag.  MD5: the Lean RFC 1321 '
         'implementation against hashlib on the RFC test suite and every length 0..130.  Histories: sequences of '
         'sends through ONE Rmcp and ONE Session object with password (set_auth_type_user and direct attribute), '
         'authentication type, session id, sequence number, activated flag and the session object itself (none / '
@@ -54,6 +60,12 @@ ASSUMPTIONS = [
     'message tag of the pong with the ping it sent (every ping has tag 0, the result of ping() is only "somebody '
     'answered"); these are compared with the model only.  A pong that names enterprise 4542 with a non-zero '
     'OEM-defined field is not well-formed, its rejection is not judged',
+    'which variant of AsfPong.pack the tree has (as shipped: the 16 data bytes without the 8-byte ASF header) is probed with '
+    'the witness of pong_pack_asShipped_counterexample (a fresh AsfPong().pack()); the RMCP header in front of the packed '
+    'pong is supplied from the figure (AsfPong does not write it); pyipmi/emulation.py is not modelled in Lean: its answer '
+    'to a ping is judged by the Spec parser only, PyYAML (used by its main() only) is replaced by an empty module when it '
+    'is not installed, and while the tree has the as-shipped pack the emulator\'s header-less pong is counted as the same '
+    'defect (C05:pong-pack:not-asf), not reported a second time',
     'the send model is a function of the session configuration at the moment of sending (Sess: auth type, session id, '
     'sequence number, activated, password); histories on one real Session / Rmcp object are compared send by send '
     'with the model applied to the configuration the caller put last',
@@ -445,6 +457,193 @@ def judge_ping(ctx, drv, case, variant, model=None, verbose=False):
         ctx.violate('C05:asf:rejects-pong' + suffix, 'Rmcp.ping() - the first step of establish_session - fails with %s on a '
                     'well-formed presence pong%s' % (out, ' because of its %s' % which if which else ''), case,
                     expected='ping() returns', observed=out)
+
+
+# ----------------------------------------------------------------- the pong the library BUILDS
+PONG_ATTRS = ('tag', 'oem_iana_enterprise_number', 'oem_defined', 'supported_entities', 'supported_interactions')
+PONG_DEFAULTS = (0, 4542, 0, 0, 0)
+
+
+def real_pong_pack(case):
+    """AsfPong().pack() - a fresh object, the attributes named in case['set'] assigned first; or (case['unpack'])
+    an AsfPong that unpacked the figure-built pong first.  -> ('ok', bytes, outcome of the library's own
+    AsfPong().unpack on them, second pack() of the same object) or (exception, None, None, None)"""
+    from pyipmi.interfaces import rmcp
+    msg = rmcp.AsfPong()
+    try:
+        if case.get('unpack'):
+            msg.unpack(bytes.fromhex(case['unpack']))
+        for k, v in case.get('set', {}).items():
+            setattr(msg, k, v)
+        out = msg.pack()
+        again = msg.pack()
+    except Exception as e:  # noqa
+        return _tag(e), None, None, None
+    out = bytes(bytearray(out))
+    m2 = rmcp.AsfPong()
+    try:
+        m2.unpack(out)
+        own = _pong_attrs(m2)
+    except Exception as e:  # noqa
+        own = _tag(e)
+    return 'ok', out, own, bytes(bytearray(again))
+
+
+def _probe_pong_pack_variant():
+    """Which variant of `AsfPong.pack` the tree has: 's' as shipped (the 16 data bytes without the ASF header) or
+    'i' intended (ASF header + data); the witness of Props.C05.pong_pack_asShipped_counterexample"""
+    o, b, _, _ = real_pong_pack({'op': 'pong-pack', 'set': {}})
+    return 's' if (o == 'ok' and len(b) == 16) else 'i'
+
+
+def _pong_pack_fields(case):
+    f = list(PONG_DEFAULTS)
+    if case.get('unpack'):
+        d = bytes.fromhex(case['unpack'])
+        f = [d[5], int.from_bytes(d[8:12], 'big'), int.from_bytes(d[12:16], 'big'), d[16], d[17]]
+    for i, k in enumerate(PONG_ATTRS):
+        if k in case.get('set', {}):
+            f[i] = case['set'][k]
+    return tuple(f)
+
+
+def judge_pong_pack(ctx, drv, case, variant, model=None, verbose=False):
+    """The presence pong the library builds (what pyipmi/emulation.py puts behind an RMCP header of class ASF):
+    judged by the ASF parser of the specification and by the library's own unpack"""
+    o, sdu, own, again = real_pong_pack(case)
+    f = _pong_pack_fields(case)
+    code_s = o if o != 'ok' else 'ok ' + lean.hexs(sdu)
+    if verbose:
+        print('  real: AsfPong.pack() -> %s' % code_s)
+        print('  AsfPong().unpack(of that) -> %s' % own)
+    if model is not None and model != code_s:
+        ctx.disagree('pong-pack', case, model, code_s)
+    wf = f[0] < 256 and f[1] < 2 ** 32 and f[2] < 2 ** 32 and f[3] < 256 and f[4] < 256 and not (f[1] == 4542 and f[2] != 0) \
+        and min(f) >= 0
+    ctx.count('pong-pack:' + ('wellformed' if wf else 'out-of-domain'))
+    ctx.count('pong-pack:outcome:' + o)
+    if not wf:
+        return                                              # model tie only
+    want = pong_datagram(*f)
+    lw = lean.unhex(drv.ask('mkpong %d %d %d %d %d' % f))
+    if lw != want:
+        ctx.disagree('oracle-pong-datagram', case, lean.hexs(lw), lean.hexs(want))
+    if verbose:
+        print('  Spec.Lan.pongDatagram (after the RMCP header 06 00 ff 06): %s' % lean.hexs(want[4:]))
+    if o != 'ok':
+        ctx.violate('C05:pong-pack:raises:' + o, 'AsfPong.pack() raises %s for a pong whose fields all fit' % o, case,
+                    expected=lean.hexs(want[4:]), observed=o)
+        return
+    dgram = want[:4] + sdu                                  # the RMCP header is not AsfPong's business
+    p = _spec_pong(ctx, drv, dgram, case) if drv.ask('ispong ' + lean.hexs(dgram)) == '1' else None
+    if verbose:
+        print('  Spec.Lan.parsePong: %s' % (p,))
+    if p is None:
+        ctx.violate('C05:pong-pack:not-asf', 'the message AsfPong.pack() builds is not an ASF presence pong: %d bytes, '
+                    'the format has 8 header bytes (enterprise number 4542, type 40h, tag, reserved, length 10h) and 16 data '
+                    'bytes; the library\'s own AsfPong().unpack() of it: %s' % (len(sdu), own.split()[0]), case,
+                    expected=lean.hexs(want[4:]), observed=lean.hexs(sdu))
+        return
+    if p != f:
+        ctx.violate('C05:pong-pack:fields', 'the pong AsfPong.pack() builds does not carry the fields of the object '
+                    '(tag, OEM number, OEM-defined, entities, interactions)', case, expected=str(f), observed=str(p))
+        return
+    if own != 'ok 4542 64 %d %d %d %d %d' % f:
+        ctx.violate('C05:pong-pack:own-unpack', 'AsfPong().unpack() does not return the fields of the pong AsfPong.pack() built',
+                    case, expected='4542 64 %d %d %d %d %d' % f, observed=own)
+    elif again != sdu:
+        ctx.violate('C05:pong-pack:second-pack', 'a second pack() of the same AsfPong object gives other bytes', case,
+                    expected=lean.hexs(sdu), observed=lean.hexs(again))
+
+
+def _pong_pack_cases(rng, tier):
+    out = [{'op': 'pong-pack', 'kind': 'fresh', 'set': {}}]
+    B8 = (0, 1, 0x7f, 0x80, 0x81, 0xfe, 0xff)
+    B32 = (0, 1, 343, 4542, 0x7fffffff, 0x80000000, 0xffffffff)
+    for i, k in enumerate(PONG_ATTRS):                      # one attribute at its boundary values
+        for v in (B32 if i in (1, 2) else B8):
+            out.append({'op': 'pong-pack', 'kind': 'one-attribute', 'set': {k: v}})
+    for v in B32:                                           # OEM-defined capabilities of an OEM
+        out.append({'op': 'pong-pack', 'kind': 'oem', 'set': {PONG_ATTRS[1]: 343, PONG_ATTRS[2]: v}})
+    for _ in range(60 if tier == 'quick' else 1500):        # all attributes
+        oi = rng.choice((4542, 343, 0, 0xffffffff, rng.randrange(2 ** 32)))
+        od = 0 if oi == 4542 else rng.choice((0, 1, 0xffffffff, rng.randrange(2 ** 32)))
+        f = (rng.choice(B8 + (rng.randrange(256),)), oi, od, rng.choice(B8 + (rng.randrange(256),)),
+             rng.choice(B8 + (0x20, 0xa0, rng.randrange(256))))
+        out.append({'op': 'pong-pack', 'kind': 'all-attributes', 'set': dict(zip(PONG_ATTRS, f))})
+    for _ in range(30 if tier == 'quick' else 600):         # re-encoding a pong that was unpacked
+        oi = rng.choice((4542, 343, rng.randrange(2 ** 32)))
+        od = 0 if oi == 4542 else rng.choice((0, rng.randrange(2 ** 32)))
+        # the interactions byte stays 0: which other values unpack() takes is the other variant flag
+        d = pong_datagram(rng.choice(B8), oi, od, rng.choice(B8 + (rng.randrange(256),)), 0)
+        c = {'op': 'pong-pack', 'kind': 'after-unpack', 'unpack': lean.hexs(d[4:]), 'set': {}}
+        if rng.random() < 0.5:
+            c['set'] = {PONG_ATTRS[0]: rng.choice(B8), PONG_ATTRS[3]: rng.choice(B8)}
+        out.append(c)
+    # out of domain (model tie only): a field that does not fit, enterprise 4542 with OEM-defined capabilities
+    for k, v in ((PONG_ATTRS[0], 256), (PONG_ATTRS[1], 2 ** 32), (PONG_ATTRS[2], 2 ** 32), (PONG_ATTRS[3], 256),
+                 (PONG_ATTRS[4], 256), (PONG_ATTRS[2], 5)):
+        out.append({'op': 'pong-pack', 'kind': 'out-of-domain', 'set': {k: v}})
+    return out
+
+
+def _pong_pack_line(case, variant):
+    return 'pongpack %s %d %d %d %d %d' % ((variant,) + _pong_pack_fields(case))
+
+
+def real_emulator_pong(tag):
+    """pyipmi.emulation.handle_rmcp_asf_msg on the figure's presence ping with message tag `tag`: what the BMC
+    emulator shipped with the library hands to sendto behind the RMCP header.  ('unavailable', reason) when the module
+    cannot be imported (PyYAML, which only its main() uses, is replaced by an empty module when it is not installed)."""
+    import sys
+    import types
+    try:
+        if 'yaml' not in sys.modules:
+            try:
+                import yaml  # noqa
+            except ImportError:
+                sys.modules['yaml'] = types.ModuleType('yaml')
+        from pyipmi import emulation
+        fn = emulation.handle_rmcp_asf_msg
+    except Exception as e:  # noqa
+        return 'unavailable', _tag(e)
+    try:
+        out = fn(None, bytes([0, 0, 0x11, 0xbe, 0x80, tag, 0, 0]))
+    except Exception as e:  # noqa
+        return _tag(e), None
+    return 'ok', bytes(bytearray(out))
+
+
+def judge_emulator_pong(ctx, drv, case, variant, verbose=False):
+    """the answer of the library's own BMC emulator to a presence ping: a well-formed pong carrying the ping's tag"""
+    tag = case['tag']
+    o, sdu = real_emulator_pong(tag)
+    if verbose:
+        print('  real: handle_rmcp_asf_msg(ping with tag %02xh) -> %s %s' % (tag, o, lean.hexs(sdu) if isinstance(sdu, bytes) else sdu))
+    ctx.count('emulator-pong:outcome:' + o)
+    if o == 'unavailable':
+        return
+    if o != 'ok':
+        ctx.violate('C05:emulation:pong:raises:' + o, 'the BMC emulator answers a presence ping with %s' % o, case,
+                    expected='a presence pong', observed=o)
+        return
+    dgram = bytes([6, 0, 0xff, 6]) + sdu
+    p = _spec_pong(ctx, drv, dgram, case) if drv.ask('ispong ' + lean.hexs(dgram)) == '1' else None
+    if verbose:
+        print('  Spec.Lan.parsePong: %s' % (p,))
+    if p is None:
+        if variant == 's' and real_pong_pack({'set': {}})[1] == sdu:
+            ctx.count('emulator-pong:same-defect-as-pong-pack')     # reported as C05:pong-pack:not-asf
+            if verbose:
+                print('  (the emulator sends AsfPong().pack() as it is: C05:pong-pack:not-asf)')
+            return
+        ctx.violate('C05:emulation:pong:not-asf', 'what the BMC emulator answers to a presence ping is not an ASF presence '
+                    'pong', case, expected=lean.hexs(pong_datagram(tag, 4542, 0, 0, 0)[4:]) + ' (capability bytes free)',
+                    observed=lean.hexs(sdu))
+    elif p[0] != tag:
+        ctx.violate('C05:emulation:pong:tag', 'the pong of the BMC emulator carries message tag %02xh, the ping it answers '
+                    'has %02xh (ASF 2.0 3.2.4.3: the tag is copied from the ping)' % (p[0], tag), case,
+                    expected='tag %d' % tag, observed='tag %d' % p[0])
 
 
 # ----------------------------------------------------------------- generators
@@ -961,6 +1160,19 @@ def run(ctx):
         ctx.count('pong:kind:' + c['kind'].split('@')[0])
         judge_pong(ctx, drv, c, pv, m)
     ctx.sample({'pong': pc[0], 'model': models[0]})
+    # ---- the pong the library builds
+    kv = _probe_pong_pack_variant()
+    ctx.extra['pong_pack_variant'] = 'asShipped' if kv == 's' else 'intended'
+    kc = _pong_pack_cases(ctx.rng('c05-pong-pack'), ctx.tier)
+    models = drv.ask_many([_pong_pack_line(c, kv) for c in kc])
+    for c, m in zip(kc, models):
+        ctx.case(('pong-pack', repr(sorted(c['set'].items())), c.get('unpack')), nontrivial=c['kind'] != 'fresh')
+        ctx.count('pong-pack:kind:' + c['kind'])
+        judge_pong_pack(ctx, drv, c, kv, m)
+    ctx.sample({'pong-pack': kc[1], 'model': models[1]})
+    for tag in [0, 1, 0x7f, 0x80, 0xfe] + [ctx.rng('c05-emulator').randrange(1, 255) for _ in range(3)]:
+        ctx.case(('emulator-pong', tag), nontrivial=tag != 0)
+        judge_emulator_pong(ctx, drv, {'op': 'emulator-pong', 'tag': tag}, kv)
     if _facts is not None:
         ctx.extra['generated'] = {'packHeaderArgs': _facts['packHeaderArgs'], 'md5Args': _facts['md5Args'],
                                   'packAuth': _facts['packAuth'], 'sidFormats': [str(_facts['sidPack']), str(_facts['sidUnpack'])]}
@@ -1000,6 +1212,10 @@ def replay(ctx, v):
         judge_pong(c2, drv, case, _probe_pong_variant(), None, verbose=True)
     elif case['op'] == 'ping':
         judge_ping(c2, drv, case, _probe_pong_variant(), None, verbose=True)
+    elif case['op'] == 'emulator-pong':
+        judge_emulator_pong(c2, drv, case, _probe_pong_pack_variant(), verbose=True)
+    elif case['op'] == 'pong-pack':
+        judge_pong_pack(c2, drv, case, _probe_pong_pack_variant(), None, verbose=True)
     for x in c2.violations:
         print('  %s: %s' % (x['signature'], x['what']))
         print('    expected %s' % (x['expected'],))
